@@ -263,8 +263,26 @@ package flags
 //@   ensures[C01,C05] option.isFunc() ==> ncalls(reflect.Value.Set) == n0
 //@   ensures[C01,C05] !option.isFunc() ==> ncalls(reflect.Value.Set) == n0 + 1 && callarg(reflect.Value.Set, n0, 0) == option.value && (option.value.Type().Kind() != reflect.Map ==> callarg(reflect.Value.Set, n0, 1) == reflect.Zero(option.value.Type()))
 //@   assigns nothing
-//@ assumed func (option *Option) call(value *string) (err error)
+// A function option: without a value the function is called without
+// arguments; with a value the text is converted to the function's parameter
+// type by the same convert() every other option uses (so custom Unmarshalers
+// apply) and the function is called once with it - not at all if the
+// conversion fails or the function takes no parameter.  (Trusted: what a user
+// function returns through reflection is not go-flags' own unknown-flag error.)
+//@ assumed func reflect.Value.Call(v reflect.Value, in []reflect.Value) (out []reflect.Value)
 //@   traced
+//@ assumed func reflect.Type.In(t reflect.Type, i int) (r reflect.Type)
+//@   pure
+//@ func (option *Option) call(value *string) (err error)
+//@   props C01 C11 C14 C04
+//@   traced
+//@   requires option != nil
+//@   let c0 := ncalls(convert)
+//@   let k0 := ncalls(reflect.Value.Call)
+//@   ensures[C01] value == nil ==> ncalls(convert) == c0 && ncalls(reflect.Value.Call) == k0 + 1 && callarg(reflect.Value.Call, k0, 0) == option.value
+//@   ensures[C09,C11] err == nil ==> nfails(convert) == old(nfails(convert))
+//@   ensures[C14,C01] value != nil && option.value.Type().NumIn() == 0 ==> isTyped(err, ErrNoArgumentForBool) && ncalls(convert) == c0 && ncalls(reflect.Value.Call) == k0
+//@   ensures[C01,C11] value != nil && option.value.Type().NumIn() != 0 ==> ncalls(convert) == c0 + 1 && callarg(convert, c0, 0) == *value && (callres(convert, c0, 0) != nil ==> err == callres(convert, c0, 0) && ncalls(reflect.Value.Call) == k0) && (callres(convert, c0, 0) == nil ==> ncalls(reflect.Value.Call) == k0 + 1 && callarg(reflect.Value.Call, k0, 0) == option.value)
 //@   ensures is(err, *Error) ==> as(err, *Error) != nil
 //@   ensures !isTyped(err, ErrUnknownFlag)
 //@ assumed func (p *Parser) marshalError(option *Option, err error) (e *Error)
@@ -790,7 +808,7 @@ package flags
 //@   ensures[C05,C06] option.isSet && option.preventDefault && !option.clearReferenceBeforeSet
 //@   ensures[C01,C05] ncalls(Option.empty) == e0 + ite(clears, 1, 0) && (clears ==> callarg(Option.empty, e0, 0) == option)
 //@   ensures[C11] rejected ==> isTyped(err, ErrInvalidChoice) && ncalls(convert) == c0 && ncalls(Option.call) == k0
-//@   ensures[C01,C11] !rejected && option.isFunc() ==> ncalls(Option.call) == k0 + 1 && ncalls(convert) == c0 && callarg(Option.call, k0, 0) == option && callarg(Option.call, k0, 1) == value && err == callres(Option.call, k0, 0)
+//@   ensures[C01,C11] !rejected && option.isFunc() ==> ncalls(Option.call) == k0 + 1 && ncalls(convert) <= c0 + 1 && callarg(Option.call, k0, 0) == option && callarg(Option.call, k0, 1) == value && err == callres(Option.call, k0, 0)
 //@   ensures[C01,C11] !rejected && !option.isFunc() ==> ncalls(convert) == c0 + 1 && ncalls(Option.call) == k0 && callarg(convert, c0, 0) == ite(value != nil, *value, "") && callarg(convert, c0, 1) == option.value && err == callres(convert, c0, 0)
 //@   ensures[C04] is(err, *Error) ==> as(err, *Error) != nil
 //@   ensures[C09,C11] err == nil ==> nfails(convert) == old(nfails(convert))
@@ -1606,6 +1624,8 @@ package flags
 //@ assumed func reflect.Value.Interface(v reflect.Value) (i interface{})
 //@   pure
 //@   ensures v.Type() == durationT() ==> is(i, fmt.Stringer)
+//@   ensures is(i, *Error) ==> as(i, *Error) != nil && as(i, *Error).Type != ErrUnknownFlag
+//@   ensures v.Type() == reflect.TypeOf((*error)(nil)).Elem() && i != nil ==> is(i, error)
 //@ assumed func reflect.Value.CanAddr(v reflect.Value) (r bool)
 //@   pure
 //@ assumed func reflect.Value.Addr(v reflect.Value) (r reflect.Value)
